@@ -1004,7 +1004,14 @@ func c19BFS(t *core.T, c *core.Ctx, ini *c19State, acts []c19Action, first, maxD
 	}
 	for depth := 1; depth <= maxDepth && len(frontier) > 0; depth++ {
 		var next []*c19State
-		for _, s := range frontier {
+		for si, s := range frontier {
+			if si%16 == 0 && c.TimeUp() {
+				// out of time: what was explored so far stands, the run is reported as capped
+				t.Outcome("bfs-capped-by-time")
+				t.Impl(transitions + faultRuns)
+				t.Sample(map[string]interface{}{"first_action": acts[first].name, "states": len(seen), "transitions": transitions, "fault_injected_runs": faultRuns, "capped_at_depth": depth})
+				return len(seen), transitions, faultRuns
+			}
 			for ai, a := range acts {
 				if depth == 1 && ai != first {
 					continue
